@@ -270,7 +270,7 @@ func (c10) Cases(tier string, seed uint64) []fw.Case {
 			cases = append(cases, fw.MkCase(fmt.Sprintf("c10-%s-tree-%d", p.name, k), "cancel", Payload{Prog: pi, Backend: "tree", K: int64(k)}, tags...))
 		}
 	}
-	// cancellation during @init (NewVM): poisoned by KF-vm-newvm-panics-on-cancel
+	// cancellation during @init (NewVM panicked on the host goroutine until efcf7f6)
 	for pi, p := range programs[:3] {
 		cases = append(cases, fw.MkCase(fmt.Sprintf("c10-%s-vm-init-1", p.name), "cancel-init", Payload{Prog: pi, Backend: "vm", K: 1, ArmEarly: true}, "cancel-during-init"))
 	}
